@@ -84,3 +84,38 @@ def c08_f3_first_last_int_offset(case, detail):
 
 
 PREDICATES.update({"C08-F3": c08_f3_first_last_int_offset})
+# ---- C12 (laziness; labels found at compute time) -------------------------------------------------
+
+
+def _c12_no_requested_label(case):
+    present = {l for l in case["labels"] if l is not None}
+    if case.get("expected") is None:
+        return not present
+    return not (present & set(case["expected"]))
+
+
+def c12_f1_eager_when_no_label(case, detail):
+    # chunked values, in-memory labels, none of the requested labels occurs (or every label is missing): the final
+    # reindex_ shortcut (`array.shape[axis] == 0 -> np.full`) turns the lazy result into an in-memory array
+    return (case.get("kind") == "lazy" and case["api"] in ("reduce", "xarray") and not case["by_dask"]
+            and _c12_no_requested_label(case) and detail.startswith("returned eager"))
+
+
+def c12_f2_spurious_nan_label(case, detail):
+    # dask labels without expected_groups, every label missing: one spurious NaN label (eager: no label at all)
+    return (case.get("kind") in ("unknown", "unknown-2d") and all(l is None for l in case["labels"])
+            and detail.startswith("labels differ") and "[nan]" in detail.replace("NaN", "nan"))
+
+
+def c12_f3_blockwise_dask_labels(case, detail):
+    # method='blockwise' with chunked labels: rechunk_for_blockwise / the per-block group count hand the lazy labels to
+    # pd.factorize / pd.unique (TypeError; nothing is computed only because pandas refuses a dask array)
+    return (case.get("kind") == "lazy" and case["by_dask"] and case.get("method") == "blockwise"
+            and detail.startswith("tried to inspect the values of a lazy array"))
+
+
+PREDICATES.update({
+    "C12-F1": c12_f1_eager_when_no_label,
+    "C12-F2": c12_f2_spurious_nan_label,
+    "C12-F3": c12_f3_blockwise_dask_labels,
+})
